@@ -1,0 +1,23 @@
+//go:build verif
+
+package ct
+
+import "io"
+
+// Exported wrappers for the verification harness (property C16). Build tag verif only.
+
+func ZVReadUint(r io.Reader, numBytes int) (uint64, error) { return readUint(r, numBytes) }
+
+func ZVReadVarBytes(r io.Reader, numLenBytes int) ([]byte, error) {
+	return readVarBytes(r, numLenBytes)
+}
+
+func ZVWriteUint(w io.Writer, value uint64, numBytes int) error { return writeUint(w, value, numBytes) }
+
+func ZVWriteVarBytes(w io.Writer, value []byte, numLenBytes int) error {
+	return writeVarBytes(w, value, numLenBytes)
+}
+
+func ZVMarshalDigitallySignedHere(ds DigitallySigned, here []byte) ([]byte, error) {
+	return marshalDigitallySignedHere(ds, here)
+}
